@@ -114,7 +114,7 @@ def move_case(cid, rng, cfg, imgs):
 def reuse_case(cid, rng, cfg, imgs):
     # object 0 has a history, object 1 is fresh; both are re-initialised the same way
     im, b = rng.choice(imgs)
-    hist = rng.choice(["create", "load", "lazy", "lazy", "moved-from", "moved-to-lazy", "saved"])
+    hist = rng.choice(["create", "load", "lazy", "lazy", "moved-from", "moved-to-lazy", "saved", "assigned-away", "assigned-away"])
     lines = ["obj 0", "ctor plain"]
     if hist == "create":
         lines += ["create %s %s" % other_cfg(cfg, rng)] + content_ops(rng, cfg)
@@ -127,6 +127,14 @@ def reuse_case(cid, rng, cfg, imgs):
     elif hist == "moved-to-lazy":
         # object 0 receives a lazily loaded object (and its open stream) by move assignment
         lines += ["obj 4", "ctor plain", "load file 1 " + hx(b), "obj 0", "moveassign 0 4", "destroy 4"]
+    elif hist == "assigned-away":
+        # object 0 is move-assigned into an object that had an address translation installed (and content of its
+        # own): nothing of the destination's previous state may come back to the source
+        lines += ["create %s %s" % other_cfg(cfg, rng)] + content_ops(rng, cfg)[:8]
+        lines += ["obj 5", "ctor plain", "xlat 0 %d %d" % (rng.choice([64, 4096, 1 << 20]), rng.choice([16, 4096, 12345])),
+                  "create %s %s" % cfg, "addsec " + hx(b".old"), "obj 0", "moveassign 5 0"]
+        if rng.random() < 0.5:
+            lines += ["destroy 5"]
     else:
         lines += ["create %s %s" % cfg] + content_ops(rng, cfg) + ["save"]
     lines += ["obj 1", "ctor plain"]
